@@ -46,7 +46,15 @@ class Command(SerializableMixin, DictableMixin):
         self.argument = match.group(2).decode('utf-8', errors='surrogateescape')
 
     def to_bytes(self):
-        return '{0} {1}\r\n'.format(self.name, self.argument).encode(
+        line = '{0} {1}'.format(self.name, self.argument)
+
+        if '\r' in line or '\n' in line:
+            # The argument may come from a percent-decoded URL; a line break
+            # in it would be read by the server as additional commands.
+            raise ProtocolError(
+                'Line break in FTP command: {0}'.format(ascii(line)))
+
+        return '{0}\r\n'.format(line).encode(
             'utf-8', errors='surrogateescape')
 
     def to_dict(self):
